@@ -142,6 +142,15 @@ C10_Stop(R) ==
                        LET e == Last(R.tev[i]) IN Last(R.out).t = e.t /\ Last(R.out).at = e.at /\ Last(R.out).seg = e.seg
                  /\ \A j \in 1..Len(R.out) : R.out[j].t <= Last(R.out).t + Tol      \* nothing later is reported
                  /\ \A i \in 1..Len(R.tev) : \A j \in 1..Len(R.tev[i]) : R.tev[i][j].t <= Last(R.out).t
+\* a terminal event function (count 1) that changes sign in the configured direction over a delivered step - or
+\* passes through an exact zero at a step end between strictly opposite signs - stops the run
+C10_MustStop(R) ==
+    \A i \in 1..Len(R.sc.evs) :
+       LET e == R.sc.evs[i] IN
+       e.term = 1 =>
+         /\ (\A k \in 1..R.K : StrictOpp(G(e, R.sc.grid[k]), G(e, R.sc.grid[k + 1]), e.dir) => R.intr)
+         /\ (\A k \in 1..(R.K - 1) :
+                (G(e, R.sc.grid[k + 1]) = 0 /\ StrictOpp(G(e, R.sc.grid[k]), G(e, R.sc.grid[k + 2]), e.dir)) => R.intr)
 C10_Prefix(R) ==
     /\ IsPrefixOf(Strip(Body(R)), Strip(R.nt.out))
     /\ \A i \in 1..Len(R.tev) : IsPrefixOf(R.tev[i], R.nt.tev[i])
@@ -179,6 +188,7 @@ Clauses(R) ==
       <<"C08", "events",         C08_Inv(R)>>,
       <<"C09", "sign_changes",   C09_Inv(R)>>,
       <<"C10", "stop",           C10_Stop(R)>>,
+      <<"C10", "must_stop",      C10_MustStop(R)>>,
       <<"C10", "prefix",         C10_Prefix(R)>>,
       <<"C10", "keeps_earlier",  KeepsEarlier(R)>>,
       <<"C03", "samples",        C03_Samples(R)>>,
